@@ -90,6 +90,24 @@ pub fn run(cx: &mut Ctx) {
         }
     }
 
+    // streamed file sources in front of every kind of barrier / join (incl. the zero-shard empty file):
+    // `split` ignores the requested partition count and returns one part per shard
+    {
+        let fo = CheckOpts { par_vs_seq: true, vs_reference: true };
+        let opts = GenOpts { max_steps: 6, max_rows: cx.budget(14, 60), barriers: true, joins: true, globals: true, nonlocal_batches: false };
+        let rounds = cx.budget(60, 1200);
+        let mut done = 0;
+        while done < rounds {
+            let mut p = gen_prog(&mut cx.rng, &opts);
+            if done % 6 == 0 { p.src.clear(); }
+            if !reorder_inert(&p) || !matches!(reference(&p), RefOut::Rows(_)) { continue; }
+            let n = p.src.len();
+            let per = *cx.rng.pick(&[0usize, 1, 2, 3, n.saturating_sub(1).max(1), n.max(1), n + 1, 1000]);
+            check_prog_file(cx, &p, per, &[Mode::Seq, Mode::Par(1), Mode::Par(3)], &fo);
+            done += 1;
+        }
+    }
+
     // random programs: every transform family, joins with transformed sides, global combines with any fan-out
     let opts = GenOpts { max_steps: 10, max_rows: cx.budget(24, 120), barriers: true, joins: true, globals: true, nonlocal_batches: false };
     let rounds = cx.budget(350, 6000);
